@@ -1,9 +1,13 @@
 """In-memory OAuth 1.0 provider on the REAL authlib core (rfc5849 AuthorizationServer / ResourceProtector) with the semantics of
 flask_oauth1.cache hooks: temporary credentials looked up by oauth_token only, nonce key nonce-timestamp-client[-token], set-on-check."""
-from authlib.oauth1.rfc5849 import AuthorizationServer, ResourceProtector, OAuth1Request, ClientMixin, TemporaryCredential, TokenCredentialMixin
-from authlib.oauth1.rfc5849.errors import OAuth1Error
 import memserver as ms
 from memserver import CLOCK, Fault
+# the harness clock is installed BEFORE the OAuth 1 modules are imported, at the histories' start time: anything the library
+# evaluates once at import (a default argument, a module constant) is then an OLD time, as in a long-running process
+ms.install_clock()
+CLOCK.now = 1_000_000
+from authlib.oauth1.rfc5849 import AuthorizationServer, ResourceProtector, OAuth1Request, ClientMixin, TemporaryCredential, TokenCredentialMixin  # noqa: E402
+from authlib.oauth1.rfc5849.errors import OAuth1Error  # noqa: E402
 
 
 class Client1(ClientMixin):
